@@ -155,12 +155,15 @@ func (s *State) writeMem() {
 // Send command while reload is scheduled. Output of command is ignored.
 // If only a reload banner with additional prompt is seen,
 // wait for the real prompt of command.
+// But output must start with echo of command. Otherwise this is
+// delayed output of previous command, which must not be ignored.
 func (s *State) sendCmd(cmd string) {
 	s.Conn.Send(cmd)
 	out, _ := s.stripReloadBanner(s.Conn.GetOutput())
 	for s.reloadActive && strings.TrimSpace(out) == "" {
 		out, _ = s.stripReloadBanner(s.Conn.GetOutput())
 	}
+	s.Conn.StripEcho(cmd, out)
 }
 
 // Send 1 or 2 commands in one data packet to device.
